@@ -157,6 +157,30 @@ theorem newton_exit_residual (g tol : ℝ) (fuel : ℕ) (st : List (ℝ × Depth
       obtain ⟨st', e1, e2, e3⟩ := ih _ h
       exact ⟨st', e1, by rw [e2]; simp [List.map_map, Function.comp], e3⟩
 
+/-- the same with the depths: the returned vector pairs each frequency *and depth* of the input
+with a wavenumber that meets the residual test at that depth -/
+theorem newton_exit_residual_depth (g tol : ℝ) (fuel : ℕ) (st : List (ℝ × Depth ℝ × ℝ))
+    (h : (iterate g tol fuel st).2 = true) :
+    ∃ st' : List (ℝ × Depth ℝ × ℝ), (iterate g tol fuel st).1 = st'.map (·.2.2) ∧
+      st'.map (fun q => (q.1, q.2.1)) = st.map (fun q => (q.1, q.2.1)) ∧
+      ∀ q ∈ st', absv (omega g q.2.2 q.2.1 - q.1) / q.1 < tol := by
+  induction fuel generalizing st with
+  | zero => simp [iterate] at h
+  | succ n ih =>
+    simp only [iterate] at h ⊢
+    by_cases hall : ((st.map fun x : ℝ × Depth ℝ × ℝ => (x.1, x.2.1, newtonStep g x.1 x.2.1 x.2.2)).all
+        fun x => converged g tol x.1 x.2.1 x.2.2) = true
+    · rw [if_pos hall]
+      refine ⟨_, rfl, ?_, ?_⟩
+      · simp [List.map_map, Function.comp]
+      · intro q hq
+        rw [List.all_eq_true] at hall
+        have := hall q hq
+        simpa [converged] using this
+    · rw [if_neg hall] at h ⊢
+      obtain ⟨st', e1, e2, e3⟩ := ih _ h
+      exact ⟨st', e1, by rw [e2]; simp [List.map_map, Function.comp], e3⟩
+
 /-! ### Non-vacuity: in deep water the first guess is exact and the first step accepts it -/
 
 example : (0 : ℝ) < 9.81 ∧ (0 : ℝ) < 25 := by norm_num
